@@ -86,6 +86,6 @@ fn read_file(path: &PathBuf, sub: &Vec<String>) -> Option<(String, Content)> {
 }
 
 fn to_file_name(path: &PathBuf) -> String {
-    let name = path.file_name().unwrap().to_string_lossy().to_string();
-    name.trim_end_matches(".md").to_string()
+    // the `.md` suffix is removed (once) when the name is turned into a key
+    path.file_name().unwrap().to_string_lossy().to_string()
 }
